@@ -244,7 +244,7 @@ def register(reg):
     @reg.contract
     class WriteOutgoing(Contract):
         key = H2 + "._write_outgoing_data"
-        props = ("C03", "C16", "C15", "C12", "C13", "C14", "C01")
+        props = ("C03", "C16", "C15", "C12", "C13", "C14", "C01", "C08")
         modifies = ("NS.written", "X.queue_ver", "H2._write_exception", "H2._connection_error")
         raises = NET_WRITE_RAISES + ["Cancelled", "OtherException"]
         raises_props = ("C15", "C14")  # ConnectionNotAvailable from a write would be re-sent by the pool
@@ -415,7 +415,7 @@ def register(reg):
     @reg.contract
     class ReceiveEvents(Contract):
         key = H2 + "._receive_events"
-        props = ("C01", "C02", "C12", "C13", "C14", "C15")
+        props = ("C01", "C02", "C12", "C13", "C14", "C15", "C08")
         params = {"stream_id": "opt:int"}
         modifies = ("NS.pending", "NS.written", "X.ver", "X.closed", "X.queue_ver", "H2._events", "H2._connection_terminated", "H2._read_exception", "H2._write_exception",
                     "H2._connection_error", "H2._max_streams", "H2._request_count", "Sem.permits", "SemG.mine")
@@ -438,7 +438,7 @@ def register(reg):
                 pending = z3.And(z3.Not(sid.none), q.has(c.eng, c.st, sid.val.t), z3.Length(q.get(c.eng, c.st, sid.val.t).t) > 0)
                 out += [
                     ("network_read_under_the_read_lock", ("C12", "C02", "C08"), rl in c.st.held),
-                    ("no_read_while_own_events_are_queued", ("C12", "C02", "C13", "C15"), z3.Not(pending)),
+                    ("no_read_while_own_events_are_queued", ("C12", "C02", "C13", "C15", "C08"), z3.Not(pending)),
                     ("no_read_after_goaway", ("C14",), F(c, s, "H2._connection_terminated") == 0),
                 ]
             if ev.name == "list.append":
